@@ -28,7 +28,7 @@ from . import _util as U
 PID = "C18"
 MOD = "bbverif.checks.c18"
 
-BOUNDS = {"quick": {"M": 7, "N": 12, "CM": 6}, "thorough": {"M": 10, "N": 16, "CM": 8}}
+BOUNDS = {"quick": {"M": 7, "N": 13, "CM": 6}, "thorough": {"M": 10, "N": 16, "CM": 8}}
 SP, TABC, LF, CR, HASH, QUOTE = 32, 9, 10, 13, 35, 34
 
 
@@ -542,7 +542,12 @@ def main():
                 names = [lg.tok_names.get(x, "?") for x in w1], [lg.tok_names.get(x, "?") for x in w2]
                 if ok1 and not ok2:
                     rep.obligation(name, "violated", witness=names)
-                    rep.violation("O4:%s" % job[0], "sentence %r is accepted, but %r (layout edit %s) is rejected by the real parser" % (names[0], names[1], job[0]),
+                    key = "O4:%s" % job[0]
+                    if job[0] == "remove_final" and _ends_with_array_row(lg, w1):
+                        key = "O4:remove_final:last line is an array row"
+                    if len(rep.violations) >= U.MAX_REPORTED and not any(common._match(f, key, "") for f in rep.known):
+                        continue
+                    rep.violation(key, "sentence %r is accepted, but %r (layout edit %s) is rejected by the real parser" % (names[0], names[1], job[0]),
                                   "import sys\nsys.path.insert(0, %r)\nfrom bbverif.atnsmt import lang\nlg = lang.Lang()\na, _ = lg.real_parse_tokens(%r)\nb, e = lg.real_parse_tokens(%r)\nprint(a, b, e)\nsys.exit(1 if a and not b else 0)\n" % (
                                       common.ROOT, [x for x in w1 if x != 0], [x for x in w2 if x != 0]), "o4_%s_%d" % (job[0], len(rep.violations)))
                 else:
@@ -577,6 +582,27 @@ def main():
               replay_fn=lambda r: REPLAY_O6 % {"root": common.ROOT, "spec": r["spec"], "vname": r["cex"]["vname"], "vals": r["cex"]["values"], "seed": common.seed(), "tier": t},
               sample_fn=lambda r: {"O6 script": r["text"], "paths": r["paths"]})
     return rep.finish()
+
+
+def _ends_with_array_row(lg, w):
+    """the sentence (token types, EOF last) ends with an array body: ... ASSIGN NEWLINE (TAB row NEWLINE)+ EOF"""
+    NL, TABT, ASSIGN = lg.tok_ids["NEWLINE"], lg.tok_ids["TAB"], lg.tok_ids["ASSIGN"]
+    toks = [x for x in w if x != 0]
+    if not toks or toks[-1] != NL:
+        return False
+    # split into lines
+    lines, cur = [], []
+    for t in toks:
+        cur.append(t)
+        if t == NL:
+            lines.append(cur)
+            cur = []
+    k = len(lines) - 1
+    if not lines[k] or lines[k][0] != TABT:
+        return False
+    while k >= 0 and lines[k] and lines[k][0] == TABT:
+        k -= 1
+    return k >= 0 and len(lines[k]) >= 2 and lines[k][-2] == ASSIGN and lg.tok_ids["TYPE_ARRAY"] in lines[k]
 
 
 def _dispatch(j):
